@@ -348,4 +348,5 @@ void xmp_end_smix(xmp_context opaque)
 	free(smix->xxi);
 	smix->xxs = NULL;
 	smix->xxi = NULL;
+	smix->chn = smix->ins = smix->smp = 0;
 }
